@@ -42,6 +42,7 @@ type Doc struct {
 	Sel   []Sel    `json:"sel"`
 	Frags []Frag   `json:"frags"`
 	Vars  []VarDef `json:"vars"`
+	Op    string   `json:"op"` // query | mutation
 }
 
 // Binding is one variable of an assignment.
@@ -116,7 +117,11 @@ func printSels(sb *strings.Builder, sels []Sel, indent string) {
 // Print renders the document as GraphQL text (one anonymous or named query + fragment definitions).
 func (d *Doc) Print(opName string) string {
 	var sb strings.Builder
-	sb.WriteString("query")
+	if d.Op == "mutation" {
+		sb.WriteString("mutation")
+	} else {
+		sb.WriteString("query")
+	}
 	if opName != "" {
 		sb.WriteString(" " + opName)
 	}
@@ -306,7 +311,7 @@ func ParseQuery(text string) (*Doc, string, error) {
 	if err != nil {
 		return nil, "", err
 	}
-	d := &Doc{Sel: sels, Frags: []Frag{}, Vars: []VarDef{}}
+	d := &Doc{Sel: sels, Frags: []Frag{}, Vars: []VarDef{}, Op: string(op.Operation)}
 	for _, v := range op.VariableDefinitions {
 		def, err := valueOf(v.DefaultValue)
 		if err != nil {
